@@ -40,7 +40,13 @@ def bigfix_to_fraction(rec):
     return -v if rec["neg"] else v
 
 
+class Skip(Exception):
+    pass
+
+
 class Geo:
+    not_applicable = 0
+
     def __init__(self, rnd):
         self.gc, self.gd, self.an = _mods()
         self.rnd = rnd
@@ -117,10 +123,23 @@ class Geo:
         s, a12, a21 = self.gd.vincinv(lat1, lon1, lat2, lon2, E)
         return {"s": E_(s), "a12": E_(a12), "a21": E_(a21), "f": (s, a12, a21)}
 
+    def oblique(self, lat, az, E):
+        """the exact-geodesic clauses apply when cos(alpha0) >= 1e-3 (GeodesicOracle); lines running along the equator are the DEQ/IEQ
+        events.  Only used to avoid generating events the specification would answer with `not_applicable`."""
+        f = 1.0 / float(E.inversef)
+        beta = math.atan((1 - f) * math.tan(math.radians(lat))) if abs(lat) < 90 else math.radians(lat)
+        ca0 = math.hypot(math.cos(math.radians(az)), math.sin(math.radians(az)) * math.sin(beta))
+        if ca0 < 2e-3:
+            self.not_applicable += 1
+            return False
+        return True
+
     def ev(self, k, tag, fn):
         e = {"k": k, "tag": tag, "exc": "", "o": {}}
         try:
             e["o"] = fn()
+        except Skip:
+            raise
         except Exception as ex:
             e["exc"] = "%s: %s" % (type(ex).__name__, str(ex)[:100])
         return e
@@ -193,7 +212,9 @@ def build_c04(g, cases, arcs, quick, rnd):
                     evs.append(g.ev("DEQ", "equator", lambda: {"ell": rec, "lon1": E_(lon1), "az": az, "kdeg": k, "s": E_(s),
                                                                 "out": g.direct(0.0, lon1, float(az), s, E)}))
     # relational laws in every case of the skeleton
-    sub = [c for i, c in enumerate(cases) if c[1] == "direct" and (not quick or i % 5 == 0)]
+    # quick: one ellipsoid class per (latitude band, azimuth class, distance decade), rotating through the five classes
+    # (the skeleton lists the ellipsoid fastest: a plain stride of 5 would always pick the same one)
+    sub = [c for i, c in enumerate(cases) if c[1] == "direct" and (not quick or i % 5 == (i // 5) % 5)]
     for (_, _, c) in sub:
         for rep in range(1 if quick else 4):
             e = g.ell(c["ell"])
@@ -225,6 +246,11 @@ def build_c04(g, cases, arcs, quick, rnd):
                 return {"lat2": E_(la2), "sa1": E_(math.sin(math.radians(az))), "cb1": cosb(lat, E),
                         "sa2": E_(math.sin(math.radians(a21 - 180.0))), "cb2": cosb(la2, E), "ell": e[0], "in": [lat, lon, az, s]}
             evs.append(g.ev("DCL", tag, clair))
+            if rep == 0 and (not quick or rnd.random() < 0.25) and g.oblique(lat, az, E):
+                def exact():
+                    return {"ell": g.ell_rec(e), "lat1": E_(lat), "lon1": E_(lon), "az": E_(az), "s": E_(s), "out": g.direct(lat, lon, az, s, E),
+                            "in": [lat, lon, az, s]}
+                evs.append(g.ev("DGE", tag, exact))
             rel = rnd.choice(["reflect", "mirror", "shift", "zero", "args"])
 
             def sym():
@@ -315,6 +341,17 @@ def build_c05(g, cases, arcs, quick, rnd):
                         "cb2": cosb(lat2, E), "sinsig": E_(abs(math.sin(s_ / a))), "ell": e[0], "in": [lat1, lon1, lat2, lon2]}
             if abs(lat1) < 89.0 and abs(lat2) < 89.0:
                 evs.append(g.ev("ICL", tag, iclair))
+            if rep < 2 and (not quick or rnd.random() < 0.34):
+                def iexact():
+                    ab = g.inverse(lat1, lon1, lat2, lon2, E)
+                    if not g.oblique(lat1, ab["f"][1], E):
+                        raise Skip()
+                    return {"ell": g.ell_rec(e), "lat1": E_(lat1), "lon1": E_(lon1), "lat2": E_(lat2), "lon2": E_(lon2), "out": ab,
+                            "in": [lat1, lon1, lat2, lon2]}
+                try:
+                    evs.append(g.ev("IGE", tag, iexact))
+                except Skip:
+                    pass
             off = rnd.choice([360.0, -360.0, 37.5, -200.0, 180.0])
 
             def shift():
@@ -360,6 +397,39 @@ def build_c05(g, cases, arcs, quick, rnd):
                     ba = g.inverse(lat2, lon2, lat1, lon1, E)
                     return {"p1": [lat1, lon1], "p2": [lat2, lon2], "ab": ab, "ba": ba, "sinsig": E_(abs(math.sin(ab["f"][0] / a))), "ell": e[0]}
                 evs.append(g.ev("ISWAP", tag, swap))
+    # nearly antipodal pairs, 2.05 .. 2.95 degrees short of the antipode (still inside the quantifier: separation <= 178 deg),
+    # where the inverse iteration converges slowly
+    for e in g.ells:
+        E = e[1]
+        for k in range(3 if quick else 14):
+            lat1, lon1 = rnd.uniform(-75, 75), rnd.uniform(-180, 180)
+            gap, brg = math.radians(rnd.uniform(2.05, 2.95)), math.radians(rnd.uniform(0, 360))
+            p0 = math.radians(-lat1)                                     # the antipode, displaced by `gap` towards `brg` on the sphere
+            p2 = math.asin(math.sin(p0) * math.cos(gap) + math.cos(p0) * math.sin(gap) * math.cos(brg))
+            l2 = math.radians(lon1 + 180.0) + math.atan2(math.sin(brg) * math.sin(gap) * math.cos(p0), math.cos(gap) - math.sin(p0) * math.sin(p2))
+            lat2, lon2 = math.degrees(p2), (math.degrees(l2) + 180.0) % 360.0 - 180.0
+            if not (177.0 <= sph_sep(lat1, lon1, lat2, lon2) <= 177.96):
+                continue
+            tag = "near-antipodal"
+
+            def nclose(lat1=lat1, lon1=lon1, lat2=lat2, lon2=lon2, E=E, e=e):
+                inv = g.inverse(lat1, lon1, lat2, lon2, E)
+                dr = g.direct(lat1, lon1, inv["f"][1], inv["f"][0], E)
+                rv = g.direct(dr["f"][0], dr["f"][1], dr["f"][2], inv["f"][0], E)
+                return {"p1": {"lat": E_(lat1), "lon": E_(lon1)}, "p2": {"lat": E_(lat2), "lon": E_(lon2)}, "inv": inv, "dir": dr,
+                        "rev": rv, "cos1": cosd(lat1), "cos2": cosd(lat2), "ell": e[0], "f": [lat1, lon1, lat2, lon2]}
+            evs.append(g.ev("ICLOSE", tag, nclose))
+
+            def nexact(lat1=lat1, lon1=lon1, lat2=lat2, lon2=lon2, E=E, e=e):
+                ab = g.inverse(lat1, lon1, lat2, lon2, E)
+                if not g.oblique(lat1, ab["f"][1], E):
+                    raise Skip()
+                return {"ell": g.ell_rec(e), "lat1": E_(lat1), "lon1": E_(lon1), "lat2": E_(lat2), "lon2": E_(lon2), "out": ab,
+                        "in": [lat1, lon1, lat2, lon2]}
+            try:
+                evs.append(g.ev("IGE", tag, nexact))
+            except Skip:
+                pass
     for (la, lo) in [(0.0, 0.0), (-37.5, 144.25), (89.9, -10.0), (-90.0, 0.0)]:
         evs.append(g.ev("ICOIN", "coincident", lambda: {"out": g.inverse(la, lo, la, lo, g.ells[0][1]), "p": [la, lo]}))
     return evs
@@ -434,14 +504,34 @@ def selftest(g, arcs, prop):
         bad = copy.deepcopy(base)
         bad["o"]["out"]["s"] = E_(float(fix.dec(bad["o"]["out"]["s"])) + 0.004)
         want = "c05_meridian_distance"
-    fails, _ = tracecheck.validate("Trace_Geodesic", "Trace_Geodesic.cfg", [{"ev": [strip(base)]}, {"ev": [strip(bad)]}], None, None,
-                                   all_fails=True)
+    # the exact-geodesic clauses: an oblique 1234.5 km line; end point moved by 3 mm / distance by 4 mm
+    E = e[1]
+    if prop == "C04":
+        base2 = g.ev("DGE", "selftest", lambda: {"ell": rec, "lat1": E_(-33.25), "lon1": E_(151.5), "az": E_(58.75), "s": E_(1234567.891),
+                                                  "out": g.direct(-33.25, 151.5, 58.75, 1234567.891, E)})
+        bad2 = copy.deepcopy(base2)
+        bad2["o"]["out"]["lon"] = E_(float(fix.dec(bad2["o"]["out"]["lon"])) + 3.5e-8)     # about 3.3 mm east
+        want2 = "c04_exact_geodesic_end_point"
+        bad3 = copy.deepcopy(base2)
+        bad3["o"]["ell"] = dict(rec, a=E_(6378132.0))                                      # not the published GRS80 semi-major axis
+        want3 = "c04_shipped_ellipsoid_constants"
+    else:
+        base2 = g.ev("IGE", "selftest", lambda: {"ell": rec, "lat1": E_(-33.25), "lon1": E_(151.5), "lat2": E_(12.5), "lon2": E_(-170.25),
+                                                  "out": g.inverse(-33.25, 151.5, 12.5, -170.25, E)})
+        bad2 = copy.deepcopy(base2)
+        bad2["o"]["out"]["s"] = E_(float(fix.dec(bad2["o"]["out"]["s"])) + 0.004)
+        want2 = "c05_exact_geodesic_end_point"
+        bad3 = copy.deepcopy(base2)
+        bad3["o"]["out"]["a21"] = E_(float(fix.dec(bad3["o"]["out"]["a21"])) + 5e-8)
+        want3 = "c05_exact_geodesic_reverse_azimuth"
+    fails, _ = tracecheck.validate("Trace_Geodesic", "Trace_Geodesic.cfg",
+                                   [{"ev": [strip(x)]} for x in (base, bad, base2, bad2, bad3)], None, None, all_fails=True)
     got = {}
     for (i, l, c) in fails:
         got.setdefault(i, []).append(c)
-    out = {"baseline_clean": 0 not in got, "corrupted": got.get(1, [])}
-    if 0 in got or want not in got.get(1, []):
-        raise tlc.MachineryError("binding self-test failed: %s" % out)
+    out = {"baseline_clean": 0 not in got and 2 not in got, "corrupted": got.get(1, []), "corrupted_exact": got.get(3, []) + got.get(4, [])}
+    if 0 in got or 2 in got or want not in got.get(1, []) or want2 not in got.get(3, []) or want3 not in got.get(4, []):
+        raise tlc.MachineryError("binding self-test failed: %s" % got)
     return out
 
 
